@@ -268,6 +268,7 @@ func (s *DB) Remove(key []byte) error {
 	s.mutBatch.Lock()
 	_ = s.batch.Delete(key)
 	s.mutBatch.Unlock()
+	verifPoint("db.rm.afterBatchDelete")
 
 	return s.updateBatchWithIncrement()
 }
